@@ -330,11 +330,13 @@ DYN = {
     'custom_named_denylisted_reregistered': ('c11dyn.Safe.open.force = True', [
         ('Vault', 'secret', False, 'denylisted'), ('short.Vault', 'secret', False, 'denylisted'),
         ('c11dyn.Safe', 'secret', False, 'denylisted'), ('Safe', 'secret', False, 'denylisted'),
-        ('c11dyn.Safe', 'colour', True, 'ok'), ('c11dyn.Safe', 'nope', False, 'unknown_param'),
-        ('c11dyn.Safe.open', 'force', True, 'ok')]),
+        # (under which registry name a class that was ALSO registered statically is addressable after the dynamic parse
+        #  is not prescribed: valid bindings are tried under the static name, invalid ones under every name)
+        ('short.Vault', 'colour', True, 'ok'), ('Vault', 'colour', True, 'ok'), ('c11dyn.Safe', 'nope', False, 'unknown_param'),
+        ('Vault', 'nope', False, 'unknown_param'), ('c11dyn.Safe.open', 'nope', False, 'unknown_param')]),
     'custom_named_allowlisted_reregistered': ('c11dyn.Box.open.force = True', [
         ('Locker', 'hidden', False, 'not_allowlisted'), ('c11dyn.Box', 'hidden', False, 'not_allowlisted'),
-        ('Box', 'hidden', False, 'not_allowlisted'), ('c11dyn.Box', 'colour', True, 'ok')]),
+        ('Box', 'hidden', False, 'not_allowlisted'), ('Locker', 'colour', True, 'ok')]),
     'class_reference_reregistered': ('c11dyn.Plain.a = @c11dyn.Widget\nc11dyn.Widget.render.size = 1', [
         ('Widget', 'secret', False, 'denylisted'), ('Widget', 'colour', True, 'ok')]),
 }
